@@ -13,8 +13,8 @@ import (
 	"sort"
 	"strings"
 	"testing"
-	"time"
 	"testing/synctest"
+	"time"
 
 	"github.com/ipfs/go-cid"
 	"github.com/ipld/go-ipld-prime"
@@ -24,8 +24,10 @@ import (
 	"github.com/ipni/go-libipni/dagsync"
 	"github.com/ipni/go-libipni/dagsync/ipnisync"
 	"github.com/ipni/go-libipni/dagsync/ipnisync/head"
+	"github.com/libp2p/go-libp2p"
 	ic "github.com/libp2p/go-libp2p/core/crypto"
 	"github.com/libp2p/go-libp2p/core/peer"
+	libp2phttp "github.com/libp2p/go-libp2p/p2p/http"
 	"github.com/multiformats/go-multiaddr"
 	"github.com/multiformats/go-multihash"
 
@@ -147,7 +149,7 @@ func (h *headServer) ServeHTTP(w http.ResponseWriter, r *http.Request) {
 
 func TestCheck(t *testing.T) {
 	r := vp.New("C03", "exploration",
-		"publisher side: every root of a 10-CID alphabet (v0, v1 x 3 codecs x 3 hash functions) x 10 topics (none, ascii, unicode, 256, 1000 and 6600 bytes, ending in '/', only '/', padded with spaces, mixed case) x key types: the real Publisher's /head answer is validated by the reference and must be accepted, with the same CID and signer, by the library's own head.Decode / Validate; one publisher taken through every ordered pair of roots (root, other root, first root again), the head verified after every change. Client side: for each of a corpus of valid encoded heads (key types x topics) served verbatim to the real Syncer.GetHead (libp2p-HTTP discovery and plain HTTP): every single-byte substitution, every truncation, and field-level alterations (CID replaced, topic added/removed/changed/given a leading or trailing slash, space or NUL/upper-cased/shortened by a character, key of another identity of the same and another type, signature of another head, key+signature swapped between two valid heads, re-signed by another identity, empty key, empty signature); every field-level alteration served cold (fresh Syncer) and after each of 5 histories of valid heads on a reused Syncer ([valid], [other root], [valid, other], [other, valid], [valid, valid]), each altered head served up to 3 times in a row, followed by both valid heads again; every byte-level alteration right after the valid head on a reused Syncer (every 8th also cold); every field-level alteration also against Syncers created for address lists that mix the HTTP address with a non-HTTP one (both orders), repeat it, or hold nil entries, and against sync clients built with each ClientOption (server peer-ID authentication on/off, time-out, retry) and with all of them; every alteration class also through Subscriber.SyncAdChain, cold and after a healthy sync with a head query (altered head derived from the head served before, and from the current one), with the publisher named in the ID field of the AddrInfo and named only by a /p2p component of its addresses, or by the ID field next to a nil entry and an address whose /p2p component names another identity. Non-trivial: every altered head. Distinct = distinct (head, alteration).",
+		"publisher side: every root of a 10-CID alphabet (v0, v1 x 3 codecs x 3 hash functions) x 10 topics (none, ascii, unicode, 256, 1000 and 6600 bytes, ending in '/', only '/', padded with spaces, mixed case) x key types: the real Publisher's /head answer is validated by the reference and must be accepted, with the same CID and signer, by the library's own head.Decode / Validate; one publisher taken through every ordered pair of roots (root, other root, first root again), the head verified after every change. Client side: for each of a corpus of valid encoded heads (key types x topics) served verbatim to the real Syncer.GetHead (libp2p-HTTP discovery and plain HTTP): every single-byte substitution, every truncation, and field-level alterations (CID replaced, topic added/removed/changed/given a leading or trailing slash, space or NUL/upper-cased/shortened by a character, key of another identity of the same and another type, signature of another head, key+signature swapped between two valid heads, re-signed by another identity, empty key, empty signature); every field-level alteration served cold (fresh Syncer) and after each of 5 histories of valid heads on a reused Syncer ([valid], [other root], [valid, other], [other, valid], [valid, valid]), each altered head served up to 3 times in a row, followed by both valid heads again; every byte-level alteration right after the valid head on a reused Syncer (every 8th also cold); every field-level alteration also against Syncers created for address lists that mix the HTTP address with a non-HTTP one (both orders), repeat it, or hold nil entries, and against sync clients built with each ClientOption (server peer-ID authentication on/off, time-out, retry) and with all of them, and over the libp2p stream transport (publisher = a libp2p host with the publisher's identity serving over streams only, client built with ClientStreamHost; loopback TCP); every alteration class also through Subscriber.SyncAdChain, cold and after a healthy sync with a head query (altered head derived from the head served before, and from the current one), with the publisher named in the ID field of the AddrInfo and named only by a /p2p component of its addresses, or by the ID field next to a nil entry and an address whose /p2p component names another identity. Non-trivial: every altered head. Distinct = distinct (head, alteration).",
 		"reference validator (generic DAG-JSON decode + libp2p crypto) is the oracle; an altered encoding is required to be rejected only when the reference rejects it (byte changes that alter no value are not alterations)",
 		"announce-triggered syncs do not query the head and are out of this property's reach",
 		"ECDSA signatures are randomised by the signer (libp2p/crypto), so the encoded ECDSA head, and with it the number of byte positions enumerated, varies by a few bytes between runs; every other fixture is deterministic",
@@ -423,12 +425,20 @@ func clientSide(t *testing.T, r *vp.Recorder, kt, topic string, ti int, disc, th
 	ctx := context.Background()
 
 	// serve one body to a syncer and judge the answer by the reference
+	// overRealNetwork: the request travels between two real hosts (stream
+	// pass): an answer is judged only when the request arrived at the server
+	overRealNetwork := false
 	serve := func(syncer *ipnisync.Syncer, key, class, when string, body []byte) {
 		hs.body = body
 		var got cid.Cid
 		var gerr error
+		arrivedBefore := hs.requests
 		if pn, pm := vp.Guard(func() { got, gerr = syncer.GetHead(ctx) }); pn {
 			r.Violation("client:panic:"+class, key, when+": "+firstLine(pm), nil)
+			return
+		}
+		if overRealNetwork && hs.requests == arrivedBefore {
+			r.Outcome("stream-request-did-not-arrive")
 			return
 		}
 		rc, rsigner, rok, why := refValidate(body, me.ID)
@@ -574,6 +584,63 @@ func clientSide(t *testing.T, r *vp.Recorder, kt, topic string, ti int, disc, th
 			serve(sc, key, class, "client option "+co.name+", served a second time", a.body)
 		}
 		osy.Close()
+	}
+	// the same alterations over the libp2p stream transport: the publisher is a
+	// libp2p host with the publisher's identity that serves the protocol over
+	// streams only (loopback TCP between two real hosts), the sync client is
+	// built with ClientStreamHost. That the stream's peer is authenticated says
+	// who serves the head, not who signed it.
+	if !disc {
+		func() {
+			hostP, err := libp2p.New(libp2p.Identity(me.Priv), libp2p.ListenAddrStrings("/ip4/127.0.0.1/tcp/0"))
+			if err != nil {
+				r.Note("stream transport: publisher host unavailable: %v", err)
+				return
+			}
+			defer hostP.Close()
+			server := &libp2phttp.Host{StreamHost: hostP}
+			server.SetHTTPHandlerAtPath(ipnisync.ProtocolID, ipnisync.IPNIPath, hs)
+			go server.Serve()
+			defer server.Close()
+			clientHost, err := libp2p.New(libp2p.NoListenAddrs)
+			if err != nil {
+				r.Note("stream transport: client host unavailable: %v", err)
+				return
+			}
+			defer clientHost.Close()
+			ssy := ipnisync.NewSync(st.LinkSystem(), nil, ipnisync.ClientStreamHost(clientHost))
+			defer ssy.Close()
+			var warm *ipnisync.Syncer
+			overRealNetwork = true
+			defer func() { overRealNetwork = false }()
+			for _, a := range append([]alteration{{"none", valid}}, alts...) {
+				key := fmt.Sprintf("%s|over-a-libp2p-stream|field|%s", base, a.name)
+				if !r.Mine(key) {
+					continue
+				}
+				r.Eval(key, true)
+				sc, err := ssy.NewSyncer(peer.AddrInfo{ID: me.ID, Addrs: hostP.Addrs()})
+				if err != nil {
+					// the two hosts talk over the loopback interface: a client
+					// that cannot be made (connection, protocol discovery) is the
+					// environment's business; no verdict for this alteration
+					r.Outcome("stream-syncer-unavailable")
+					r.Note("stream transport: NewSyncer failed for %s: %v", key, err)
+					continue
+				}
+				class := "field:" + a.name
+				if a.name == "none" {
+					class = "valid"
+				}
+				serve(sc, key, class, "cold, over a libp2p stream", a.body)
+				if warm == nil {
+					warm = sc
+				} else {
+					serve(warm, key, "valid", "reused syncer over a libp2p stream, valid head", valid)
+					serve(warm, key, class, "reused syncer over a libp2p stream, after the valid head", a.body)
+				}
+			}
+		}()
 	}
 	for cut := 0; cut < len(valid); cut++ {
 		tryWarm(fmt.Sprintf("%s|trunc|%d", base, cut), "truncation", valid[:cut])
